@@ -142,6 +142,12 @@ RECIPES.update({
     'distribution_result_results': dict(name='results', cls='distribution_result', self='distribution_result'),
     'mc_result_sum': dict(name='sum', cls='mc_result', self='mc_result'),
     'mc_result_sum_of_squares': dict(name='sum_of_squares', cls='mc_result', self='mc_result'),
+    'multi_channel_summary': dict(unit='chkpt', name='multi_channel_summary', opts=dict(inline_lambdas=True)),
+    'multi_channel_weight_info_channels': dict(unit='chkpt', name='channels', cls='multi_channel_weight_info', self='multi_channel_weight_info'),
+    'multi_channel_weight_info_weights': dict(unit='chkpt', name='weights', cls='multi_channel_weight_info', self='multi_channel_weight_info'),
+    'multi_channel_weight_info_calls': dict(unit='chkpt', name='calls', cls='multi_channel_weight_info', self='multi_channel_weight_info'),
+    'multi_channel_weight_info_minimal_weight_count': dict(unit='chkpt', name='minimal_weight_count', cls='multi_channel_weight_info', self='multi_channel_weight_info'),
+    'multi_channel_max_difference': dict(unit='chkpt', name='multi_channel_max_difference'),
     'chi_square_dof': dict(unit='chkpt', name='chi_square_dof', opts=dict(iter_vec='vec_mc_result')),
     'mc_result_calls': dict(name='calls', cls='mc_result', self='mc_result'),
     'mc_result_non_zero_calls': dict(name='non_zero_calls', cls='mc_result', self='mc_result'),
@@ -542,6 +548,17 @@ JOBS = [
          cbmc_flags=['--unwind', '4', '--unwinding-assertions'], loop_contracts=False,
          structs=_ST_VCHK[:4], preludes=['opaque.h'], props=['C13', 'C11'],
          trusted=['the accumulator functor is a logged stub (its contract: job weighted_with_variance)', 'BOUNDED: ONE shape (2 results x 2 distributions with 1 and 2 bins), loops unwound with unwinding assertions']),
+    dict(name='summary_index_safety', functions=['multi_channel_summary', 'chkpt_multi_channel_result_results', 'multi_channel_weight_info_channels', 'multi_channel_weight_info_weights',
+                                                   'multi_channel_weight_info_calls', 'multi_channel_weight_info_minimal_weight_count'],
+         specs=['multi_channel_summary'], harness_sections=['multi_channel_summary'], entry='h_multi_channel_summary', enforce=None, loop_contracts=False,
+         cbmc_flags=['--unwind', '13', '--unwinding-assertions'],
+         structs=_ST_MCHK + [dict(unit='chkpt', cls='multi_channel_weight_info')], preludes=['opaque.h'], defines=['VP_NMAX=1048576'], props=['C20'],
+         globals='typedef struct vp_ostream { size_t writes; } vp_ostream;',
+         trusted=['ASSUMED contract of the multi_channel_weight_info constructor (one entry per channel in each vector, 1 <= minimal_weight_count <= channels)',
+                  'multi_channel_max_difference is any value; make_list_of_ranges / minimal_weight_channels (string-valued operand) are not evaluated in the C text',
+                  'loops of the summary have constant bounds (<= 11): unwound completely, checked by unwinding assertions (not a bounded stand-in)']),
+    dict(name='max_difference', functions=['multi_channel_max_difference', 'multi_channel_result_adjustment_data'], entry='h_multi_channel_max_difference', enforce='multi_channel_max_difference',
+         structs=_ST_MCHK[:5], preludes=['opaque.h'], defines=['VP_NMAX=1048576'], props=['C20'], trusted=['libm fmax / fabs as in vp/prelude/vp.h']),
     dict(name='refine_weights', functions=['multi_channel_refine_weights'], entry='h_multi_channel_refine_weights',
          enforce='multi_channel_refine_weights', replace=['vp_pow'], af=['multi_channel_refine_weights'], globals='T vp_g_s1, vp_g_s2; _Bool vp_g_nodata;',
          defines=['VP_NMAX=1048576'], props=['C08'], thorough_reals=['float'],
